@@ -4,6 +4,7 @@ import (
 	"context"
 	"crypto/tls"
 	"errors"
+	"io/ioutil"
 	"net"
 	"strings"
 	"time"
@@ -230,4 +231,16 @@ func TLSListen(network, laddr string, config *tls.Config) (net.Listener, error) 
 		return nil, err
 	}
 	return tls.NewListener(l, config), nil
+}
+
+// DiskLatency is the simulated time a file read takes. Under testing/synctest the sleep is a durable
+// block on the fake clock: every other goroutine runs meanwhile, as it would during real disk I/O.
+var DiskLatency = 2 * time.Millisecond
+
+// ReadFile stands in for ioutil.ReadFile / os.ReadFile in the rewritten copy.
+func ReadFile(name string) ([]byte, error) {
+	if DiskLatency > 0 {
+		time.Sleep(DiskLatency)
+	}
+	return ioutil.ReadFile(name)
 }
